@@ -127,6 +127,7 @@ verus_unit("proofserdev", "proofserdev", ["C12", "C03"], [
 
 
 verus_unit("containerv", "containerv", ["C12", "C03", "C15", "C06", "C10"], [
+    "BatchMerkleProof::serialize_nodes (one byte for the number of node vectors, per vector one byte for its length and the digests in order; the two assertions are the documented pre-condition)",
     "BatchMerkleProof::deserialize (every number and size of node vectors, every byte content: Ok exactly when depth > 0, 1 <= leaves <= MAX_PATHS and every announced node vector can be decoded; the node vectors are the decoded digests in order; leaves and depth passed through)",
     "<Context as Serializable>::write_into / <Context as Deserializable>::read_from (trace info, the claimed modulus behind a one-byte prefix - an empty modulus is refused -, the options; the reader refuses contexts beyond Context::new's size limits without overflowing; round trip for every context within the limits; TraceInfo / ProofOptions abstract)",
     "<FriProof as Serializable>::write_into / <FriProof as Deserializable>::read_from (layer count, the layers in order, the remainder behind a 16-bit prefix, log2 of the number of partitions - refused when 2^k is not representable; every number of layers up to 255 and every content)",
